@@ -797,6 +797,18 @@ fn fuzz_case(mut c: Case) -> Case {
     }
     c.extra_segments.truncate(3);
     c.params.truncate(5);
+    // '+'-signed numbers are outside the generated domain (Rust's integer parser accepts them,
+    // the property does not say whether they are numbers): the sign is dropped
+    for p in c.params.iter_mut() {
+        match p {
+            Param::Heartbeat(v) | Param::ChannelMax(v) | Param::Timeout(v) => {
+                while v.starts_with('+') {
+                    v.remove(0);
+                }
+            }
+            _ => {}
+        }
+    }
     c
 }
 
@@ -814,7 +826,15 @@ pub fn exec_raw(c: &RawCase) -> Outcome {
         Ok(g) => g,
         Err(p) => return Outcome::fail("url-decode-panic", format!("{:?}: {} ({})", c.url, p.message, p.location)),
     };
-    let lower = c.url.trim_start().to_ascii_lowercase();
+    // what the URL standard does before it looks for the scheme: leading C0 controls and spaces
+    // are stripped, tabs and newlines are removed wherever they stand
+    let lower: String = c
+        .url
+        .chars()
+        .filter(|ch| !matches!(ch, '\t' | '\n' | '\r'))
+        .collect::<String>()
+        .trim_start_matches(|ch: char| ch <= ' ')
+        .to_ascii_lowercase();
     match got {
         Ok(d) => {
             let ok = (lower.starts_with("amqp:") && !d.secure) || (lower.starts_with("amqps:") && d.secure);
